@@ -71,6 +71,11 @@ var extTable = map[string]extEff{
 	"strconv.AppendFloat": {writes: []int{0}, alias: []int{0}}, "strconv.AppendInt": {writes: []int{0}, alias: []int{0}}, "strconv.AppendQuote": {writes: []int{0}, alias: []int{0}},
 	"bytes.TrimSpace": {alias: []int{0}}, "bytes.Trim": {alias: []int{0}}, "bytes.TrimLeft": {alias: []int{0}}, "bytes.TrimRight": {alias: []int{0}}, "bytes.TrimPrefix": {alias: []int{0}}, "bytes.TrimSuffix": {alias: []int{0}},
 	"encoding/json.Unmarshal": {writes: []int{1}},
+	// shared-state primitives: what they hand out is the shared object itself
+	"(*sync.Pool).Get": {alias: []int{0}}, "(*sync.Pool).Put": {writes: []int{0}},
+	"(*sync.Map).Load": {alias: []int{0}}, "(*sync.Map).Store": {writes: []int{0}}, "(*sync.Map).LoadOrStore": {writes: []int{0}, alias: []int{0}}, "(*sync.Map).Delete": {writes: []int{0}},
+	"(*sync.Mutex).Lock": {writes: []int{0}}, "(*sync.Mutex).Unlock": {writes: []int{0}}, "(*sync.RWMutex).Lock": {writes: []int{0}}, "(*sync.RWMutex).Unlock": {writes: []int{0}},
+	"(*sync.RWMutex).RLock": {writes: []int{0}}, "(*sync.RWMutex).RUnlock": {writes: []int{0}}, "(*sync.Once).Do": {writes: []int{0}},
 }
 
 // externals known to neither write through their arguments nor return memory aliasing them
@@ -276,6 +281,9 @@ func extName(fn *ssa.Function) string {
 
 func (e *effects) extSummary(fn *ssa.Function) (extEff, bool) {
 	name := extName(fn)
+	if strings.HasPrefix(name, "sync/atomic.") || strings.HasPrefix(name, "(*sync/atomic.") {
+		return extEff{writes: []int{0}, calls: -1}, true
+	}
 	if ee, ok := extTable[name]; ok {
 		return ee, true
 	}
